@@ -243,6 +243,8 @@ def main(argv=None):
     for key, n in sorted(known_hit.items()):
         print(f'KNOWN-FINDING: property={prop} {known[(prop, key)]["what"]} [key={key} hits={n}]')
     if new:
+        for note in inconclusive[:5]:
+            print(f'  (also inconclusive: {note[:300]})')
         for key, path, detail in replay_paths:
             print(f'  violated clause {key}: {str(detail)[:300]}')
         seen = set()
